@@ -330,8 +330,24 @@ fn shape_maxima<P: Payload>(st: &State<P>, cov: &mut Cov) {
 /// history of its own (a scratch arena with pending free slots, or an older state of this very
 /// history - same slots and stamps, different links), then run this property's monitors on the copy.
 /// Only findings that name the property are returned; the main history is not affected.
-pub fn copy_probe<P: Payload>(ctx: &Ctx, st: &State<P>, old: Option<&Arena<P>>, rng: &mut Rng, cov: &mut Cov, tok: bool) -> Vec<Finding> {
+pub fn copy_probe<P: Payload>(ctx: &Ctx, st: &State<P>, old: Option<&Arena<P>>, main_rng: &mut Rng, cov: &mut Cov, tok: bool) -> Vec<Finding> {
+    // exactly one draw from the history's generator, whatever the feature set: the histories themselves
+    // stay identical in every build
+    let mut local = Rng::derive(main_rng.next_u64(), 77, 1);
+    let rng = &mut local;
+    let via_serde = cfg!(feature = "deser") && rng.chance(1, 3);
     let built = guarded(|| {
+        #[cfg(feature = "deser")]
+        if via_serde {
+            // third kind of copy: through a serde round trip (self-describing or positional format)
+            return if rng.chance(1, 2) {
+                let s = serde_json::to_string(&st.arena).expect("serialize");
+                serde_json::from_str::<Arena<P>>(&s).expect("deserialize")
+            } else {
+                let b = crate::posfmt::to_bytes(&st.arena).expect("serialize");
+                crate::posfmt::from_bytes::<Arena<P>>(&b).expect("deserialize")
+            };
+        }
         let mut d: Arena<P> = match old {
             Some(o) if rng.chance(1, 2) => o.clone(),
             _ => {
@@ -356,26 +372,59 @@ pub fn copy_probe<P: Payload>(ctx: &Ctx, st: &State<P>, old: Option<&Arena<P>>, 
     let d = match built {
         Ok(d) => d,
         Err(p) => {
-            return if ctx.is("C13") { vec![Finding::new(&["C13"], "clone_from-copy/panic".into(), p)] } else { Vec::new() };
+            return if ctx.is("C13") && !via_serde { vec![Finding::new(&["C13"], "clone_from-copy/panic".into(), p)] } else { Vec::new() };
         }
     };
+    if via_serde {
+        cov.bump("serde_round_trip_copies_monitored");
+    }
     let mut st2 = State {
         arena: d,
         model: st.model.clone(),
         issued: st.issued.clone(),
         steps: st.steps,
     };
-    let dummy = st2.step(&Op::Reserve(0));
+    let mut dummy = st2.step(&Op::Reserve(0));
     let mut fs = dummy.findings.clone();
+    // "the copy behaves like the original": this property's monitors judge the copy against the original's
+    // model even if the copy already differs from it somewhere else (each monitor is panic-guarded)
+    dummy.diverged = false;
     let mut scratch = Cov::default();
     fs.extend(monitors(ctx, &mut st2, &dummy, true, rng, &mut scratch, tok));
+    if ctx.is("C02") && rng.chance(1, 2) && fs.iter().all(|f| !ctx.owns(f)) {
+        // the copy also has to stay acyclic under further valid calls: a short hostile continuation on it,
+        // judged by the raw monitors only (the model is an argument source)
+        let mut gen = Gen::new(GenCfg::small(), if rng.chance(1, 2) { Persona::Shuffle } else { Persona::Deep });
+        for _ in 0..8 {
+            if !liveness_agrees(&st2) {
+                break;
+            }
+            let op = gen.next_op(rng, &st2.model);
+            let info = st2.step(&op);
+            // bounded raw link walks only (cheap); they run before anything could follow a cycle
+            let more = monitors(ctx, &mut st2, &info, false, rng, &mut scratch, tok);
+            let own: Vec<Finding> = more.into_iter().filter(|f| ctx.owns(f) && !f.sig.starts_with("model/") && !f.sig.starts_with("outcome/")).collect();
+            if !own.is_empty() {
+                fs.extend(own.into_iter().map(|mut f| {
+                    f.detail = format!("{} [after `{}` applied to the copy]", f.detail, op.to_text());
+                    f
+                }));
+                break;
+            }
+        }
+    }
     cov.bump("clone_from_copies_monitored");
     cov.observations += scratch.observations;
     fs.into_iter()
         .filter(|f| ctx.owns(f))
         .map(|mut f| {
-            f.sig = format!("clone_from-copy/{}", f.sig);
-            f.detail = format!("on a copy made with clone_from into a used arena: {}", f.detail);
+            if via_serde {
+                f.sig = format!("serde-copy/{}", f.sig);
+                f.detail = format!("on a copy made by a serde round trip: {}", f.detail);
+            } else {
+                f.sig = format!("clone_from-copy/{}", f.sig);
+                f.detail = format!("on a copy made with clone_from into a used arena: {}", f.detail);
+            }
             f
         })
         .collect()
@@ -439,9 +488,16 @@ pub fn run_w1<P: Payload>(ctx: &Ctx, cfg: &W1Cfg, index: u64, cov: &mut Cov, hoo
     };
     let mut rng = Rng::derive(ctx.seed, tag, index);
     let persona = PERSONAS[(index % PERSONAS.len() as u64) as usize];
-    let workload = format!("w1-{}-{}-{:?}", if tag == 1 { "small" } else { "large" }, index, persona);
+    // storage capacity at creation varies, so that buffer growth happens at different points of a history
+    let cap0 = match rng.below(4) {
+        0 => 0,
+        1 => rng.below(6),
+        2 => rng.below(40),
+        _ => rng.below(300),
+    };
+    let workload = format!("w1-{}-{}-{:?}-cap{}", if tag == 1 { "small" } else { "large" }, index, persona, cap0);
     let mut gen = Gen::new(cfg.gen.clone(), persona);
-    let mut st: State<P> = State::new();
+    let mut st: State<P> = State::with_arena(if cap0 == 0 { Arena::new() } else { Arena::with_capacity(cap0) });
     let mut ops: Vec<Op> = Vec::new();
     let mut digest = Digest::default();
     let len = match cfg.size {
@@ -1334,8 +1390,8 @@ pub fn run_deep(prop: &'static str, depth: usize) -> Result<u64, (String, String
 // ------------------------------------------------------------------ replay
 
 /// Re-executes an explicit history with this property's monitors on every step.
-pub fn replay_ops<P: Payload>(ctx: &Ctx, ops: &[Op], cov: &mut Cov, tok: bool, hook: &mut dyn Hook<P>) -> Option<Violation> {
-    let mut st: State<P> = State::new();
+pub fn replay_ops<P: Payload>(ctx: &Ctx, ops: &[Op], cap0: usize, cov: &mut Cov, tok: bool, hook: &mut dyn Hook<P>) -> Option<Violation> {
+    let mut st: State<P> = State::with_arena(if cap0 == 0 { Arena::new() } else { Arena::with_capacity(cap0) });
     let mut rng = Rng::derive(ctx.seed, 9, 9);
     let mut done: Vec<Op> = Vec::new();
     let mut blind = false;
